@@ -458,7 +458,7 @@ func runC01(e *core.Env, g Graph, cases []c01case, tag string, batch int) {
 			end = len(cases)
 		}
 		runC01Batch(e, g, cases[start:end], fmt.Sprintf("%s%d", tag, start))
-		if len(e.Res.Violations) >= 5 && os.Getenv("VERIF_DEBUG") == "" {
+		if e.Res.Full() && os.Getenv("VERIF_DEBUG") == "" {
 			return
 		}
 	}
@@ -538,7 +538,7 @@ func C01(e *core.Env) {
 	runC01(e, tg, cases, "sk", 60)
 	res.Note(fmt.Sprintf("skeleton stream: %d formulas, %.1fs", len(cases), time.Since(t0).Seconds()))
 	t0 = time.Now()
-	if len(res.Violations) >= 5 && os.Getenv("VERIF_DEBUG") == "" {
+	if res.Full() && os.Getenv("VERIF_DEBUG") == "" {
 		return
 	}
 
@@ -601,7 +601,7 @@ func C01(e *core.Env) {
 		t1 := time.Now()
 		runC01(e, wg, wcases, "w", 30)
 		res.Note(fmt.Sprintf("wide stream: %d formulas, %.1fs", len(wcases), time.Since(t1).Seconds()))
-		if len(res.Violations) >= 5 && os.Getenv("VERIF_DEBUG") == "" {
+		if res.Full() && os.Getenv("VERIF_DEBUG") == "" {
 			return
 		}
 	}
@@ -711,7 +711,7 @@ func C01(e *core.Env) {
 	runC01(e, qg, qcases, "q", 25)
 	res.Note(fmt.Sprintf("quantifier stream: %d formulas, %.1fs", len(qcases), time.Since(t0).Seconds()))
 	t0 = time.Now()
-	if len(res.Violations) >= 5 && os.Getenv("VERIF_DEBUG") == "" {
+	if res.Full() && os.Getenv("VERIF_DEBUG") == "" {
 		return
 	}
 
@@ -776,7 +776,7 @@ func C01(e *core.Env) {
 	runC01(e, ag, acases, "a", 30)
 	res.Note(fmt.Sprintf("atom stream: %d formulas x %d nodes, %.1fs", len(acases), len(ag.Nodes), time.Since(t0).Seconds()))
 	t0 = time.Now()
-	if len(res.Violations) >= 5 && os.Getenv("VERIF_DEBUG") == "" {
+	if res.Full() && os.Getenv("VERIF_DEBUG") == "" {
 		return
 	}
 
